@@ -317,7 +317,7 @@ Lemma stoch_loopL_ord fuel t ev s lg t' ev' s' l :
   OI t s lg -> stoch_loopL tb pf fuel t ev s = (t', ev', s', l) -> OI t' s' (lg ++ l).
 Proof.
   intros HI H.
-  apply (stoch_loopL_inv tb pf (fun t _ s lg => OI t s lg)) with (lg := lg) in H; [exact H| | |exact HI].
+  refine (stoch_loopL_inv tb pf (fun t _ s lg => OI t s lg) _ _ fuel t ev s lg t' ev' s' l HI H).
   - intros t1 _ s1 lg1 [A [B C]]. split; [exact A|split; [exact B|exact C]].
   - intros t1 _ s1 lg1 r [A [B C]] _ Hs.
     destruct Hs as [Hnone | | h n s2 l1 Hh Hrp | s3 nt n s4 l1 Hos Hnt Hrp | s3 nt n s4 l1 s6 x e Hos Hnt Hrp Hos6].
@@ -352,7 +352,7 @@ Lemma stoch_loopL_tinv fuel t ev s t' ev' s' l :
   TI t s -> stoch_loopL tb pf fuel t ev s = (t', ev', s', l) -> TI t' s'.
 Proof.
   intros HI H.
-  apply (stoch_loopL_inv tb pf (fun t _ s _ => TI t s)) with (lg := []) in H; [exact H| | |exact HI].
+  refine (stoch_loopL_inv tb pf (fun t _ s _ => TI t s) _ _ fuel t ev s [] t' ev' s' l HI H).
   - intros t1 _ s1 _ [C _]. split; [exact C|left; reflexivity].
   - intros t1 _ s1 _ r [C D] _ Hs.
     destruct Hs as [Hnone | | h n s2 l1 Hh Hrp | s3 nt n s4 l1 Hos Hnt Hrp | s3 nt n s4 l1 s6 x e Hos Hnt Hrp Hos6].
@@ -398,3 +398,257 @@ Proof.
 Qed.
 
 End Stoch.
+
+(* ------------------------------------------------------------------ the synchronous loop *)
+Section Sync.
+Context {W : Type}.
+Implicit Types s : st W.
+Variable tb : table W.
+Variable pf : nat.
+
+Definition OIy (t : Q) s (lg : list entry) : Prop := ord_st s lg /\ fired_le lg t.
+
+Lemma fire_tranche_ord t evs nev s nev' s' lg :
+  ord_st s lg -> fire_tranche tb t evs nev s = (nev', s') -> ord_st s' lg.
+Proof.
+  intros O H. refine (fire_tranche_inv tb t (fun _ s1 => ord_st s1 lg) _ evs nev s nev' s' O H).
+  intros _ s1 x e O1. apply ord_fire_event, O1.
+Qed.
+
+Lemma fire_tranche_stuck t evs nev s nev' s' :
+  fire_tranche tb t evs nev s = (nev', s') -> stuck s' = stuck s.
+Proof.
+  intros H. refine (fire_tranche_inv tb t (fun _ s1 => stuck s1 = stuck s) _ evs nev s nev' s' eq_refl H).
+  intros _ s1 x e O1. rewrite fire_event_stuck. exact O1.
+Qed.
+
+Lemma fire_tranche_tinv t evs nev s nev' s' : clock s = t -> tinv_st t s ->
+  fire_tranche tb t evs nev s = (nev', s') -> tinv_st t s'.
+Proof.
+  intros Hc T H.
+  refine (proj1 (fire_tranche_inv tb t (fun _ s1 => tinv_st t s1 /\ clock s1 = t) _ evs nev s nev' s' (conj T Hc) H)).
+  intros _ s1 x e [T1 C1]. split; [apply tinv_fire_event; assumption|rewrite fire_event_clock; exact C1].
+Qed.
+
+Lemma t_succ_le t : t <= Qred (t + 1).
+Proof. rewrite Qred_correct. lra. Qed.
+
+Lemma sync_loopL_ord fuel t ev k s lg t' ev' k' s' l :
+  OIy t s lg -> sync_loopL tb pf fuel t ev k s = (t', ev', k', s', l) -> OIy t' s' (lg ++ l).
+Proof.
+  intros HI H.
+  refine (sync_loopL_inv tb pf (fun t _ _ s lg => OIy t s lg) _ _ fuel t ev k s lg t' ev' k' s' l HI H).
+  - intros t1 _ _ s1 lg1 [A B]. split; [exact A|exact B].
+  - intros t1 _ _ s1 lg1 nev s3 l1 [A B] _ Hs.
+    inversion Hs as [n s0 l0 s2 evs nev1 s31 Hrp Hos Hft]; subst.
+    destruct (run_pendingL_ord tb pf _ _ _ _ _ _ _ (ord_set_clock t1 _ _ B A) Hrp) as [A1 B1].
+    assert (B' : fired_le (lg1 ++ l1) t1) by (apply fired_le_app; assumption).
+    split; [|eapply fired_le_mono; [apply t_succ_le|exact B']].
+    eapply fire_tranche_ord; [|exact Hft].
+    apply (ord_core _ _ _ (osame_core _ _ Hos)). apply ord_set_clock; assumption.
+Qed.
+
+Definition TIy (t : Q) s : Prop := stuck s = true \/ exists L, L + 1 == t /\ tinv_st L s.
+
+Lemma sync_loopL_tinv fuel t ev k s t' ev' k' s' l :
+  TIy t s -> sync_loopL tb pf fuel t ev k s = (t', ev', k', s', l) -> TIy t' s'.
+Proof.
+  intros HI H.
+  refine (sync_loopL_inv tb pf (fun t _ _ s _ => TIy t s) _ _ fuel t ev k s [] t' ev' k' s' l HI H).
+  - intros t1 _ _ s1 _ _. left. reflexivity.
+  - intros t1 _ _ s1 _ nev s3 l1 D _ Hs.
+    inversion Hs as [n s0 l0 s2 evs nev1 s31 Hrp Hos Hft]; subst.
+    destruct (stuck s3) eqn:Es3; [left; exact Es3|right].
+    rewrite (fire_tranche_stuck _ _ _ _ _ _ Hft) in Es3.
+    pose proof (osame_stuck _ _ Hos Es3) as Es0. change (stuck (set_clock t1 s0)) with (stuck s0) in Es0.
+    pose proof (run_pendingL_stuck _ _ _ _ _ _ _ _ Hrp Es0) as Es1. change (stuck (set_clock t1 s1)) with (stuck s1) in Es1.
+    destruct D as [D|[L [HL D]]]; [congruence|].
+    assert (T1 : tinv_st L (set_clock t1 s1)).
+    { unfold tinv_st. cbn. apply (tinv_raise L (clock s1)); [apply Qle_refl|lra|apply (t_live _ _ _ _ D)|exact D]. }
+    destruct (run_pendingL_tinv tb pf _ _ _ _ _ _ _ T1 Hrp Es0) as [L' [A [B [C1 D1]]]].
+    exists t1. split; [rewrite Qred_correct; reflexivity|].
+    eapply fire_tranche_tinv; [| |exact Hft]; [rewrite (osame_clock _ _ Hos); reflexivity|].
+    apply (tinv_core _ _ _ (osame_core _ _ Hos)).
+    unfold tinv_st. cbn. apply (tinv_raise L' (clock s0)); [destruct C1 as [C1|C1]; [exact C1|rewrite C1; lra]|apply Qle_refl| |exact A].
+    intros y Hy Hly. specialize (D1 y Hy Hly). lra.
+Qed.
+
+(* the loop variable counts the steps: on exit it is 1 + (number of iterations), and it only
+   stops at a step where the exit test holds *)
+Lemma inj_nat_0 : inject_Z (Z.of_nat 0) == 0.
+Proof. reflexivity. Qed.
+Lemma inj_nat_S j : inject_Z (Z.of_nat (S j)) == inject_Z (Z.of_nat j) + 1.
+Proof. rewrite Nat2Z.inj_succ. unfold Z.succ. rewrite inject_Z_plus. reflexivity. Qed.
+
+Lemma sync_loopL_time fuel t ev k s t' ev' k' s' l :
+  sync_loopL tb pf fuel t ev k s = (t', ev', k', s', l) ->
+  exists m : nat, (m <= fuel)%nat /\ t' == t + inject_Z (Z.of_nat m) /\
+    (stuck s' = false -> at_end tb t' s' = true) /\
+    (forall j : nat, (j < m)%nat -> Qle_bool (t_maxtime tb) (t + inject_Z (Z.of_nat j)) = false).
+Proof.
+  revert t ev k s t' ev' k' s' l. induction fuel as [|f IH]; intros t ev k s t' ev' k' s' l; cbn [sync_loopL].
+  - intros [= <- <- <- <- <-]. exists 0%nat. split; [lia|split; [rewrite inj_nat_0; lra|split; [cbn; discriminate|intros; lia]]].
+  - destruct (at_end tb t s) eqn:Em.
+    + intros [= <- <- <- <- <-]. exists 0%nat. split; [lia|split; [rewrite inj_nat_0; lra|split; [intros _; exact Em|intros; lia]]].
+    + destruct (sync_step tb pf t s) as [[nev s3] l1].
+      destruct (sync_loopL tb pf f _ _ _ s3) as [[[[t1 ev1] k1] sf] l2] eqn:E. intros [= <- <- <- <- <-].
+      apply IH in E. destruct E as [m [Hm [Ht [He Hj]]]]. exists (S m). split; [lia|split; [|split; [exact He|]]].
+      * rewrite Ht, Qred_correct, inj_nat_S. lra.
+      * intros j Hlt. destruct j as [|j].
+        -- unfold at_end in Em. apply orb_false_iff in Em. destruct Em as [Em _].
+           destruct (Qle_bool (t_maxtime tb) (t + inject_Z (Z.of_nat 0))) eqn:E0; [|reflexivity].
+           apply Qle_bool_iff in E0. rewrite inj_nat_0 in E0. assert (E1 : t_maxtime tb <= t) by lra.
+           apply Qle_bool_iff in E1. congruence.
+        -- specialize (Hj j ltac:(lia)).
+           destruct (Qle_bool (t_maxtime tb) (t + inject_Z (Z.of_nat (S j)))) eqn:E0; [|reflexivity].
+           apply Qle_bool_iff in E0. rewrite inj_nat_S in E0.
+           assert (E1 : t_maxtime tb <= Qred (t + 1) + inject_Z (Z.of_nat j)) by (rewrite Qred_correct; lra).
+           apply Qle_bool_iff in E1. congruence.
+Qed.
+
+End Sync.
+
+(* ------------------------------------------------------------------ handler / tap pairing, counters *)
+Definition is_tap (x : obs) : bool := match x with OTap _ _ _ _ => true | _ => false end.
+Definition is_handler (x : obs) : bool := match x with OHandler _ _ _ _ _ => true | _ => false end.
+Definition ht (o : list obs) : list obs := filter is_ht o.
+Definition ntaps (o : list obs) : nat := length (filter is_tap o).
+Definition nhandlers (o : list obs) : nat := length (filter is_handler o).
+
+(* newest first: each tap sits on the handler record of the same event: same time (handler argument
+   = clock seen by the handler = tap time), same element, and a name of the right kind *)
+Inductive paired : list obs -> Prop :=
+| pr_nil : paired []
+| pr_posted k t e p l : paired l -> paired (OTap t p (NPost k) e :: OHandler k t t e None :: l)
+| pr_event k t e m p j l : paired l -> paired (OTap t p (NEv p j) e :: OHandler k t t e (Some m) :: l).
+
+(* the same, oldest first (the order of [r_out]) *)
+Inductive paired_fwd : list obs -> Prop :=
+| pf_nil : paired_fwd []
+| pf_posted k t e p l : paired_fwd l -> paired_fwd (OHandler k t t e None :: OTap t p (NPost k) e :: l)
+| pf_event k t e m p j l : paired_fwd l -> paired_fwd (OHandler k t t e (Some m) :: OTap t p (NEv p j) e :: l).
+
+Lemma paired_fwd_app l1 l2 : paired_fwd l1 -> paired_fwd l2 -> paired_fwd (l1 ++ l2).
+Proof. induction 1; cbn; intros H2; [exact H2|constructor; auto|constructor; auto]. Qed.
+
+Lemma paired_rev l : paired l -> paired_fwd (rev l).
+Proof.
+  induction 1 as [|k t e p l _ IH|k t e m p j l _ IH]; cbn; [constructor| |].
+  - rewrite <- app_assoc. apply paired_fwd_app; [exact IH|]. cbn. constructor. constructor.
+  - rewrite <- app_assoc. apply paired_fwd_app; [exact IH|]. cbn. constructor. constructor.
+Qed.
+
+Lemma paired_counts l : paired l -> length (filter is_tap l) = length (filter is_handler l).
+Proof. induction 1; cbn; [reflexivity|f_equal; assumption|f_equal; assumption]. Qed.
+
+Lemma filter_ht_tap o : filter is_tap (filter is_ht o) = filter is_tap o.
+Proof. induction o as [|x o IH]; cbn; [reflexivity|]. destruct x; cbn; rewrite IH; reflexivity. Qed.
+Lemma filter_ht_handler o : filter is_handler (filter is_ht o) = filter is_handler o.
+Proof. induction o as [|x o IH]; cbn; [reflexivity|]. destruct x; cbn; rewrite IH; reflexivity. Qed.
+
+Lemma ht_umove c n q o c' n' q' o' : umove (c, n, q, o) (c', n', q', o') -> ht o' = ht o.
+Proof.
+  intros H. inversion H; subst; try reflexivity.
+  unfold ht. cbn. rewrite neutral_not_ht; [reflexivity|assumption].
+Qed.
+
+Lemma ht_umoves k k' : umoves k k' -> ht (snd k') = ht (snd k).
+Proof.
+  induction 1 as [|k1 k2 k3 H _ IH]; [reflexivity|]. rewrite IH.
+  destruct k1 as [[[c n] q] o], k2 as [[[c' n'] q'] o']. cbn. eapply ht_umove; eassumption.
+Qed.
+
+Section Count.
+Context {W : Type}.
+Implicit Types s : st W.
+Variable tb : table W.
+Variable pf : nat.
+
+Lemma out_of_core s c n q o : core_of s = (c, n, q, o) -> out s = o.
+Proof. unfold core_of. intros [= _ _ _ <-]. reflexivity. Qed.
+
+Lemma ht_pend_step h s0 : ht (out (pend_step tb h s0)) = trec h :: hrec h :: ht (out s0).
+Proof.
+  destruct (pend_step_shape tb h s0) as [n2 [q2 [o2 [U E]]]]. rewrite (out_of_core _ _ _ _ _ E).
+  apply ht_umoves in U. cbn in U. unfold ht in *. cbn. rewrite U. reflexivity.
+Qed.
+
+Lemma ht_fire_event x t e s : clock s = t -> exists k m pi j,
+  ht (out (fire_event tb x t e s)) = OTap t pi (NEv pi j) e :: OHandler k t t e (Some m) :: ht (out s).
+Proof.
+  intros Hc. destruct (fire_event_shape tb x t e s) as [k [m [pi [j [n2 [q2 [o2 [U E]]]]]]]].
+  exists k, m, pi, j. rewrite (out_of_core _ _ _ _ _ E).
+  apply ht_umoves in U. cbn in U. unfold ht in *. cbn. rewrite U, Hc. reflexivity.
+Qed.
+
+Definition ntaps_ht (l : list obs) : nat := length (filter is_tap l).
+Lemma ntaps_ht_eq o : ntaps o = ntaps_ht (ht o).
+Proof. unfold ntaps, ntaps_ht, ht. rewrite filter_ht_tap. reflexivity. Qed.
+
+(* paired records and the count of taps *)
+Definition CI (ev : nat) s : Prop := paired (ht (out s)) /\ ev = ntaps (out s).
+
+Lemma run_pendingL_count fuel t : forall n s n' s' l ev, CI ev s ->
+  run_pendingL tb fuel t n s = (n', s', l) -> CI (ev + length l) s' /\ n' = (n + length l)%nat.
+Proof.
+  induction fuel as [|f IH]; intros n s n' s' l ev HC; cbn [run_pendingL].
+  - intros [= <- <- <-]. cbn. rewrite !Nat.add_0_r. split; [exact HC|reflexivity].
+  - destruct (head (queue (discard s))) as [h|] eqn:Eh;
+      [|intros [= <- <- <-]; cbn; rewrite !Nat.add_0_r; split; [exact HC|reflexivity]].
+    destruct (Qle_bool (e_time h) t);
+      [|intros [= <- <- <-]; cbn; rewrite !Nat.add_0_r; split; [exact HC|reflexivity]].
+    destruct (run_pendingL tb f t (S n) _) as [[n1 s1] l1] eqn:E. intros [= <- <- <-].
+    apply (IH _ _ _ _ _ (S ev)) in E.
+    + destruct E as [A B]. cbn [length]. rewrite Nat.add_succ_r. split; [exact A|lia].
+    + destruct HC as [P C]. unfold CI. rewrite ntaps_ht_eq, ht_pend_step. split.
+      * change (out (discard s)) with (out s). unfold trec, hrec. constructor. exact P.
+      * change (out (discard s)) with (out s). unfold ntaps_ht. cbn. f_equal. rewrite C, ntaps_ht_eq. reflexivity.
+Qed.
+
+Lemma CI_fire_event ev x t e s : clock s = t -> CI ev s -> CI (S ev) (fire_event tb x t e s).
+Proof.
+  intros Hc [P C]. destruct (ht_fire_event x t e s Hc) as [k [m [pi [j E]]]].
+  unfold CI. rewrite ntaps_ht_eq, E. split; [constructor; exact P|].
+  unfold ntaps_ht. cbn. f_equal. rewrite C, ntaps_ht_eq. reflexivity.
+Qed.
+
+Lemma CI_core ev s s' : core_of s' = core_of s -> CI ev s -> CI ev s'.
+Proof. unfold core_of, CI. intros [= _ _ _ ->]. auto. Qed.
+
+Lemma CI_out ev s s' : out s' = out s -> CI ev s -> CI ev s'.
+Proof. unfold CI. intros ->. auto. Qed.
+
+Lemma stoch_loopL_count fuel t ev s t' ev' s' l :
+  CI ev s -> stoch_loopL tb pf fuel t ev s = (t', ev', s', l) -> CI ev' s'.
+Proof.
+  intros HI H.
+  refine (stoch_loopL_inv tb pf (fun _ ev s _ => CI ev s) _ _ fuel t ev s [] t' ev' s' l HI H).
+  - intros _ ev1 s1 _ C. exact C.
+  - intros t1 ev1 s1 _ r C _ Hs.
+    destruct Hs as [Hnone | | h n s2 l1 Hh Hrp | s3 nt n s4 l1 Hos Hnt Hrp | s3 nt n s4 l1 s6 x e Hos Hnt Hrp Hos6].
+    + exact C.
+    + exact C.
+    + destruct (run_pendingL_count _ _ _ _ _ _ _ ev1 (CI_out _ _ (discard s1) eq_refl C) Hrp) as [A B]. cbn in B. subst n. exact A.
+    + destruct (run_pendingL_count _ _ _ _ _ _ _ ev1 (CI_core _ _ _ (osame_core _ _ Hos) C) Hrp) as [A B].
+      cbn in B. subst n. exact A.
+    + destruct (run_pendingL_count _ _ _ _ _ _ _ ev1 (CI_core _ _ _ (osame_core _ _ Hos) C) Hrp) as [A B].
+      cbn in B. subst n. rewrite Nat.add_succ_r. apply CI_fire_event; [rewrite (osame_clock _ _ Hos6); reflexivity|].
+      apply (CI_core _ _ _ (osame_core _ _ Hos6)). exact A.
+Qed.
+
+Lemma sync_loopL_count fuel t ev k s t' ev' k' s' l :
+  CI ev s -> sync_loopL tb pf fuel t ev k s = (t', ev', k', s', l) -> CI ev' s'.
+Proof.
+  intros HI H.
+  refine (sync_loopL_inv tb pf (fun _ ev _ s _ => CI ev s) _ _ fuel t ev k s [] t' ev' k' s' l HI H).
+  - intros _ ev1 _ s1 _ C. exact C.
+  - intros t1 ev1 _ s1 _ nev s3 l1 C _ Hs.
+    inversion Hs as [n s0 l0 s2 evs nev1 s31 Hrp Hos Hft]; subst.
+    destruct (run_pendingL_count _ _ _ _ _ _ _ ev1 (CI_out _ _ (set_clock t1 s1) eq_refl C) Hrp) as [A B]. cbn in B. subst n.
+    refine (proj1 (fire_tranche_inv tb t1 (fun j sx => CI (ev1 + j) sx /\ clock sx = t1) _ evs _ s2 nev s3 _ Hft)).
+    + intros j sx x e [C1 Hc]. split; [rewrite Nat.add_succ_r; apply CI_fire_event; assumption|].
+      rewrite fire_event_clock. exact Hc.
+    + split; [apply (CI_core _ _ _ (osame_core _ _ Hos)); exact A|rewrite (osame_clock _ _ Hos); reflexivity].
+Qed.
+
+End Count.
